@@ -32,6 +32,72 @@ func waitTurn(i int) {
 	}
 }
 
+// ---- statement-level baton passing (thorough tier, instrumented copy) ----
+//
+// At a chosen statement point inside an operation the running goroutine hands
+// the baton to the goroutine owning the next foreign step, lets it execute that
+// whole step, and takes the baton back: two operations of different goroutines
+// interleaved at statement granularity, still strictly serial and replayable.
+// All scheduler state shared between goroutines is touched only inside
+// go:norace functions or through the assembly stubs.
+
+type raceG struct {
+	id      int
+	pointN  int
+	yields  []int // ordinals (n-th point reached by this goroutine) at which to yield, ascending
+	yi      int
+	curStep int
+	fired   int
+}
+
+var (
+	raceCurG     *raceG
+	raceDone     []int32
+	raceIntRet   int32
+	raceSteps    []Step
+	raceOwnerOf  []int32
+)
+
+//go:norace
+func raceSetCur(g *raceG) { raceCurG = g }
+
+//go:norace
+func racePointHook(id int) {
+	g := raceCurG
+	if g == nil {
+		return
+	}
+	n := g.pointN
+	g.pointN++
+	if g.yi >= len(g.yields) || g.yields[g.yi] != n {
+		return
+	}
+	for g.yi < len(g.yields) && g.yields[g.yi] <= n {
+		g.yi++
+	}
+	if load32(&raceIntRet) != 0 {
+		return // already inside an interrupting step: no nesting
+	}
+	i := g.curStep
+	j := -1
+	for k := i + 1; k < len(raceOwnerOf); k++ {
+		if int(raceOwnerOf[k]) != g.id && load32(&raceDone[k]) == 0 {
+			j = k
+			break
+		}
+	}
+	if j < 0 {
+		return
+	}
+	g.fired++
+	store32(&raceIntRet, int32(i+1))
+	store32(&batonTurn, int32(j))
+	for load32(&batonTurn) != -int32(i+1) {
+		runtime.Gosched()
+	}
+	raceCurG = g
+}
+
 func (e *Exec) raceOwner(i int, s *Step) int {
 	gs := max(1, e.tr.Gs)
 	if s.T >= 0 && s.T < len(e.trees) && !e.trees[s.T].cfg.Shared {
@@ -109,6 +175,32 @@ func (e *Exec) runRace() *Violation {
 	for g := 1; g <= gs; g++ {
 		subs[g] = &Exec{tr: e.tr, prop: e.prop, or: e.or, trees: e.trees, st: newRunStats(), known: e.known, lim: e.lim, inRace: true}
 	}
+	// scheduler tables (read-only once the goroutines run, except through asm)
+	raceDone = make([]int32, len(steps))
+	raceOwnerOf = make([]int32, len(steps))
+	for i := range steps {
+		raceOwnerOf[i] = int32(e.raceOwner(i, &steps[i]))
+	}
+	for i := 0; i < first; i++ {
+		raceOwnerOf[i] = 0
+		raceDone[i] = 1
+	}
+	store32(&raceIntRet, 0)
+	gstate := make([]*raceG, gs+1)
+	for g := 1; g <= gs; g++ {
+		gstate[g] = &raceG{id: g}
+		for _, p := range e.tr.Points {
+			if p.G == g && p.Act == "yield" {
+				gstate[g].yields = append(gstate[g].yields, p.Nth)
+			}
+		}
+		sortInts(gstate[g].yields)
+	}
+	if pointsAvailable {
+		raceSetCur(nil)
+		setPointHook(racePointHook)
+		defer setPointHook(nil)
+	}
 	store32(&batonTurn, int32(first))
 	var wg sync.WaitGroup
 	for g := 1; g <= gs; g++ {
@@ -117,13 +209,21 @@ func (e *Exec) runRace() *Violation {
 			defer wg.Done()
 			debug.SetPanicOnFault(true)
 			sub := subs[g]
+			me := gstate[g]
 			failed := false
 			for i := first; i < len(steps); i++ {
 				s := &steps[i]
-				if sub.raceOwner(i, s) != g {
+				if int(raceOwnerOf[i]) != g {
 					continue
 				}
 				waitTurn(i)
+				if load32(&raceDone[i]) != 0 {
+					// executed ahead of its turn, inside another goroutine's operation
+					store32(&batonTurn, int32(i+1))
+					continue
+				}
+				me.curStep = i
+				raceSetCur(me)
 				if !failed {
 					sub.st.Steps++
 					switch {
@@ -143,11 +243,25 @@ func (e *Exec) runRace() *Violation {
 						}
 					}
 				}
-				store32(&batonTurn, int32(i+1))
+				raceSetCur(nil)
+				if r := load32(&raceIntRet); r != 0 {
+					// this step ran as an interruption of step r-1: give the baton back
+					store32(&raceDone[i], 1)
+					store32(&raceIntRet, 0)
+					store32(&batonTurn, -r)
+				} else {
+					store32(&batonTurn, int32(i+1))
+				}
 			}
 		}(g)
 	}
 	wg.Wait()
+	for g := 1; g <= gs; g++ {
+		e.racePoints = append(e.racePoints, gstate[g].pointN)
+		if gstate[g].fired > 0 {
+			e.st.Events["point_yield"] += gstate[g].fired
+		}
+	}
 	for g := 1; g <= gs; g++ {
 		addMap(e.st.Ops, subs[g].st.Ops)
 		addMap(e.st.Events, subs[g].st.Events)
@@ -243,6 +357,99 @@ func genRaceTrace(seed uint64, run int, o genOpts) *Trace {
 	if o.tier == "thorough" && r.Chance(1, 4) {
 		budget = r.Range(400, 2000)
 	}
+	if !shared && run%4 == 2 && nPriv > 0 {
+		// pool churn: every private tree drives one node up and down across the
+		// size-class boundaries, in bursts, so a node released by one goroutine's
+		// tree is the next one another goroutine's tree acquires
+		type churn struct {
+			have   []int
+			target int
+			grow   bool
+			next   int
+		}
+		cs := make([]*churn, len(tr.Trees))
+		for i := range cs {
+			cs[i] = &churn{grow: true, target: pick(r, []int{6, 18, 18, 50, 50, 70})}
+		}
+		mkKey := func(ti, x int) []byte {
+			g := gts[ti]
+			switch g.kt.Kind {
+			case "alpha":
+				return append(clone(g.fanPfx), byte(x), 'c')
+			case "collation":
+				return []byte(string(rune(0x4E00 + x)))
+			case "compound":
+				k := g.newNumKey(r)
+				copy(k[0:8], u64bytes(normField(g.kt.Schema[0], false, uint64(x))))
+				if fieldBits(g.kt.Schema[0], false) == 8 {
+					return k
+				}
+				return k
+			}
+			return u64bytes(normField(g.kt.T, false, (g.bases[0]&^0xFF)|uint64(x)))
+		}
+		total := r.Range(300, 900)
+		if o.tier == "thorough" {
+			total = r.Range(600, 2500)
+		}
+		for n := 0; n < total; {
+			ti := base + r.Intn(nPriv)
+			c, g := cs[ti], gts[ti]
+			burst := r.Range(1, 10)
+			for b := 0; b < burst; b++ {
+				if c.grow && len(c.have) >= c.target {
+					c.grow = false
+					c.target = pick(r, []int{1, 2, 3, 11, 12, 13, 36, 37})
+				} else if !c.grow && len(c.have) <= c.target {
+					c.grow = true
+					c.target = pick(r, []int{5, 6, 17, 18, 49, 50, 60})
+				}
+				s := Step{T: ti, G: 1 + ti%gs}
+				if c.grow {
+					x := c.next % 256
+					c.next++
+					k := mkKey(ti, x)
+					if g.kt.Kind == "collation" && g.m.Conflicts(k) {
+						continue
+					}
+					if g.kt.Kind == "alpha" && g.m.nulRelated(k) {
+						continue
+					}
+					if _, ok := g.m.Get(k); ok {
+						continue
+					}
+					s.Op, s.K, s.V = "ins", k, nextID
+					nextID++
+					g.m.Put(k, s.V)
+					c.have = append(c.have, x)
+				} else {
+					if len(c.have) == 0 {
+						c.grow = true
+						continue
+					}
+					j := r.Intn(len(c.have))
+					k := mkKey(ti, c.have[j])
+					c.have = append(c.have[:j], c.have[j+1:]...)
+					if g.kt.Kind == "compound" {
+						// the tuple's later fields were random: delete by what the model holds
+						if pk, ok := g.presentKey(r); ok {
+							k = pk
+						}
+					}
+					s.Op, s.K = "del", k
+					g.m.Del(k)
+				}
+				tr.Steps = append(tr.Steps, s)
+				n++
+			}
+			if r.Chance(1, 6) {
+				if pk, ok := g.presentKey(r); ok {
+					tr.Steps = append(tr.Steps, Step{T: ti, G: 1 + ti%gs, Op: "get", K: pk})
+				}
+			}
+		}
+		return tr
+	}
 	ops := []string{"ins", "del", "get", "min", "max", "size", "all", "back", "topk", "botk", "range", "prefix"}
 	w := p.w
 	start := len(tr.Steps)
@@ -308,4 +515,12 @@ func genRaceTrace(seed uint64, run int, o genOpts) *Trace {
 		tr.Steps = append(tr.Steps, s)
 	}
 	return tr
+}
+
+func sortInts(a []int) {
+	for i := 1; i < len(a); i++ {
+		for j := i; j > 0 && a[j-1] > a[j]; j-- {
+			a[j-1], a[j] = a[j], a[j-1]
+		}
+	}
 }
